@@ -63,7 +63,7 @@ CONFIG = {
     "C10": {"variants": ["asan", "tsan"],
             "quick": {"shards": 4, "n": 150, "scale": 20, "arg": 12, "max_size": 100},
             "thorough": {"shards": 6, "n": 3000, "scale": 30, "arg": 20, "max_size": 100}},
-    "C11": {"adapters": False, "variants": ["asan", "tsan"],
+    "C11": {"adapters": False, "enum": True, "variants": ["asan", "tsan"],
             "quick": {"shards": 4, "n": 250, "scale": 5, "arg": 0, "max_size": 100},
             "thorough": {"shards": 6, "n": 3000, "scale": 5, "arg": 0, "max_size": 100}},
     "C20": {"enum": True, "quick": {"shards": 8, "n": 3000, "scale": 4, "arg": 0}, "thorough": {"shards": 16, "n": 30000, "scale": 4, "arg": 0}},
